@@ -132,7 +132,7 @@ theorem cloneWithPrefixes_roundtrip (env : Env) (f : Forest) (inv : f.Inv)
       p.tree = .node .document [C.erase] ∧ p.env = env ∧
       deepEqual p.tree (.node .document [expectedClone f.consolidation
         (erase (.node hs (.element name) Ks))]) = true := by
-  obtain ⟨f2, c, A, New, B, hres, hR, hg2, hp2, hA, hB, hNew, h6, -⟩ :=
+  obtain ⟨f2, c, A, New, B, hres, hR, hg2, hp2, hA, hB, hNew, h6, -, -⟩ :=
     cloneWithPrefixes_shape f inv node hs name Ks rest hpath order
   obtain ⟨c', hc', hser'⟩ := cloneWithPrefixes_serialises env f inv node hs name Ks rest hpath hser order hord hfun
   have hr := hrep c (.node c (.element name) (A ++ New ++ B)) (by rw [hres]) (by rw [hres]; exact hg2)
